@@ -22,7 +22,8 @@ Inductive fn :=
 | FList | FTuple (* list / tuple constructors *)
 | FInt | FStr    (* int / str *)
 | FGt (z : Z)    (* functools.partial(operator.lt, z): x > z, no __name__ *)
-| FSum | FMax.
+| FSum | FMax
+| FRec.          (* lambda *a, **kw: (a, kw): records how it was called *)
 
 (* ---------- Python types appearing as values ---------- *)
 Inductive pytype :=
@@ -55,7 +56,7 @@ Definition fn_eqb (a b : fn) : bool :=
   match a, b with
   | FId, FId | FLen, FLen | FInc, FInc | FDbl, FDbl | FEven, FEven | FSkipIfOdd, FSkipIfOdd
   | FStopIfNeg, FStopIfNeg | FIsNone, FIsNone | FAddArgs, FAddArgs | FList, FList | FTuple, FTuple
-  | FInt, FInt | FStr, FStr | FSum, FSum | FMax, FMax => true
+  | FInt, FInt | FStr, FStr | FSum, FSum | FMax, FMax | FRec, FRec => true
   | FConst x, FConst y => Z.eqb x y
   | FGt x, FGt y => Z.eqb x y
   | FRaise x, FRaise y => String.eqb x y
